@@ -348,4 +348,21 @@ def check_C19(ctx):
                   assumptions=TRUSTED)
 
 
-CHECKS = {"C11": check_C11, "C09": check_C09, "C16": check_C16, "C17": check_C17, "C15": check_C15, "C10": check_C10, "C12": check_C12, "C08": check_C08, "C13": check_C13, "C20": check_C20, "C05": check_C05, "C19": check_C19}
+# --------------------------------------------------------------------------- C06
+
+def check_C06(ctx):
+    n = 4 if ctx.quick else 5
+    cases, _ = ctx.tlc_mc("MC_C06", mc_cfg({"N": n}, ["AcceptanceLaw", "RejectionIsFinal", "StackDepth", "FunctionAgrees", "EmitCase"]),
+                          timeout=3000, heap="24g")
+    ctx.validate(ctx.run_cases(cases), module="TraceC06", nontrivial_key=lambda o: o["text"], chunk=20000)
+    gen = ctx.gen("nesting", 2000 if ctx.quick else 60000)
+    ctx.validate(ctx.run_cases(gen), module="TraceC06", nontrivial_key=lambda o: o["text"], chunk=20000)
+    ctx.exhaustive = False
+    return finish(ctx, rule="MC_C06: the parser machine over every token-class sequence of <= %d tokens from the 22-class alphabet "
+                            "(extension stops at rejection), compared in every state with an independent recursive-descent "
+                            "recogniser; every prefix is spelled, parsed by ParseTemplate, and TraceC06 compares accept/reject "
+                            "and the GetRoot tree with the machine's; plus seeded deep well-nested templates and their one-edit "
+                            "neighbours; non-trivial = decided (no clause after an else)" % n, assumptions=TRUSTED)
+
+
+CHECKS = {"C11": check_C11, "C09": check_C09, "C16": check_C16, "C17": check_C17, "C15": check_C15, "C10": check_C10, "C12": check_C12, "C08": check_C08, "C13": check_C13, "C20": check_C20, "C05": check_C05, "C19": check_C19, "C06": check_C06}
